@@ -423,18 +423,25 @@ def correspondence(ctx):
     nt, nt_distinct, samples = trace_correspondence(ctx, 120 if ctx.thorough else 36, dis)
     np_, np_nontriv = table_correspondence(ctx, dis)
     nh = helper_correspondence(ctx, dis)
+    from props import c05_flow
+    nf, nfcalls, fsum = c05_flow.dataflow_correspondence(ctx, dis)
+    ctx.notes.append(f"data-flow stream (Model/MGSem.v): {fsum}")
     return {
-        'evaluations': nt + np_ + nh,
+        'evaluations': nt + np_ + nh + nf,
         'distinct_nontrivial': nt_distinct + np_nontriv,
         'rule': "trace cases: random shape from {2,3,4,5,6,8,10,12}^3 x cycle x semicoarsening/linerelaxation "
                 "(single digits, True, multi-digit patterns) x clevel x nu_* x maxit (plus 3 fixed), each a real "
                 "emg3d.solve whose wrapped call trace is compared with outer_cycles; distinct = distinct "
                 "(shape, cycle, sc, lr, clevel). Table cases: MGParameters(clevel table, coarsest grid) for every "
                 "shape in the box x clevel in {-1,0,1,2,5}; non-trivial = at least one coarsening level. Helper "
-                "cases: _current_sc_dir/_current_lr_dir for all shapes in a box x all codes.",
+                "cases: _current_sc_dir/_current_lr_dir for all shapes in a box x all codes. Data-flow cases: real "
+                "solves (V/W/F, semicoarsening, line relaxation, stretched grids, anisotropy, Laplace/frequency) "
+                "with wrapped multigrid/smoothing/restriction/prolongation: every call is handed the arrays the "
+                "stack machine of Model/MGSem.v says; one real cycle leaves the exact discrete solution unchanged.",
         'samples': samples,
         'traces_validated_against_impl': nt,
-        'histogram': {'trace_cases': nt, 'table_rows': np_, 'helper_shapes': nh},
+        'histogram': {'trace_cases': nt, 'table_rows': np_, 'helper_shapes': nh, 'dataflow_cases': nf,
+                      'dataflow_wrapped_calls': nfcalls},
         'exhaustive': bool(ctx.thorough),
         'disagreements': dis,
     }
@@ -632,6 +639,9 @@ def search(ctx, broken):
             hits.append(h)
             break
     ctx.notes.append(f"searcher: property evaluated on {n} real solver traces")
+    if not hits and broken:
+        from props import c05_flow
+        hits = c05_flow.search_flow(ctx)
     return hits
 
 
@@ -639,6 +649,11 @@ def replay(ctx, payload):
     fi = payload.get('failing_input') or {}
     if 'shape' not in fi or 'cfg' not in fi:
         return False
+    if 'widths' in fi:          # a data-flow / fixed-point hit (props/c05_flow.py)
+        from props import c05_flow
+        kind, val = c05_flow.run_case([fi['shape'], fi['widths'], fi['anisotropy'], fi['cfg'],
+                                       fi['laplace'], fi['seed']])
+        return kind == 'ok' and not val['problems']
     cfg = {}
     for k, v in fi['cfg'].items():
         if v in ('True', 'False'):
